@@ -203,4 +203,174 @@ theorem hs13Loop_msgs {δ : Type} (O : Session.Ops δ) (srv : Bool) (ms : List H
       · split <;> rename_i h <;> simp [h]
       · rfl
 
+theorem finCount_cons (m : HsMsg) (ms : List HsMsg) :
+    finCount (m :: ms) = (if m.1 = 20 then 1 else 0) + finCount ms := by
+  unfold finCount
+  by_cases h : m.1 = 20 <;> simp [List.filter_cons, h]; omega
+
+/-- under the relation every `update_keys` of the loop succeeds and corresponds to the sender's epoch switch -/
+theorem updFold_rel (H : Crypto.Prims) (P : Prims) (L : SealLaws P) (kl : List Keylog.Key) (cls : CipherClass)
+    (h13 : cls.is13 = true) (macLen : Nat) (ver : Bytes) (hv : ver.length = 2) (srv : Bool) (ms : List HsMsg)
+    (x : Snd) (d : Dec) (hR : Rel cls macLen x d) (hq : max x.c.seq x.s.seq + finCount ms ≤ seqLimit) :
+    ∃ d', updFold (Pipeline.ops H P kl) srv d ms = (d', true) ∧
+      Rel cls macLen (after P L cls ver x (List.replicate (finCount ms) (.switch srv))) d' ∧
+      max (after P L cls ver x (List.replicate (finCount ms) (.switch srv))).c.seq
+          (after P L cls ver x (List.replicate (finCount ms) (.switch srv))).s.seq
+        ≤ max x.c.seq x.s.seq + finCount ms := by
+  induction ms generalizing x d with
+  | nil => exact ⟨d, rfl, hR, by simp [finCount, after]⟩
+  | cons m ms ih =>
+    rw [finCount_cons] at hq ⊢
+    by_cases h : m.1 = 20
+    · simp only [h, if_true] at hq ⊢
+      obtain ⟨h1, h2, h3, h4⟩ := step_exact P L cls macLen ver hv x d hR (.switch srv) h13 (by omega)
+      have hw : (step P L cls ver x (.switch srv)).2 = .switch srv := rfl
+      rw [hw] at h1 h2
+      obtain ⟨d', e1, e2, e3⟩ := ih (step P L cls ver x (.switch srv)).1 (recvStep P d (.switch srv)).1 h2 (by omega)
+      refine ⟨d', ?_, ?_, ?_⟩
+      · simp only [updFold, h, if_true, ops_updateKeys, h1, expected, isSwitched]
+        exact e1
+      · rw [Nat.add_comm, List.replicate_succ]; exact e2
+      · rw [Nat.add_comm 1, List.replicate_succ]
+        simp only [after, List.foldl_cons] at e3 ⊢
+        omega
+    · simp only [h, if_false, Nat.zero_add] at hq ⊢
+      obtain ⟨d', e1, e2, e3⟩ := ih x d hR hq
+      exact ⟨d', by simp only [updFold, h, if_false]; exact e1, e2, e3⟩
+
+theorem encMsgs_length_ge (ms : List HsMsg) : ms.length ≤ (encMsgs ms).length := by
+  induction ms with
+  | nil => simp
+  | cons m ms ih => simp only [encMsgs, List.flatMap_cons, List.length_append, encMsg_eq, List.length_cons] at ih ⊢; omega
+
+theorem sendOk_13 (cls : CipherClass) (h13 : cls.is13 = true) (macLen : Nat) (pt : Bytes) (f : Fresh) :
+    SendOk cls macLen pt f := by
+  cases cls <;> simp [CipherClass.is13] at h13 <;> trivial
+
+/-- a protected TLS 1.3 handshake record consisting of whole messages: nothing is exported, and every Finished in it
+    moves that direction of the decryptor to the application traffic keys, as the sender does -/
+theorem handleRecord_hs13 (H : Crypto.Prims) (P : Prims) (L : SealLaws P) (kl : List Keylog.Key) (cls : CipherClass)
+    (h13 : cls.is13 = true) (macLen : Nat) (ver : Bytes) (hv : ver.length = 2) (x : Snd) (s : Session.St Dec)
+    (hs : Ready cls macLen x s) (srv : Bool) (ms : List HsMsg) (f : Fresh) (hms : ∀ m ∈ ms, MsgOk m)
+    (hq : max x.c.seq x.s.seq + (1 + finCount ms) ≤ seqLimit) (m : Bool) (car : List Nat) :
+    let o := protect P L cls ver (x.get srv) 22 (encMsgs ms) f
+    let x' := after P L cls ver (x.set srv o.1) (List.replicate (finCount ms) (.switch srv))
+    (Session.handleRecord (Pipeline.ops H P kl) m s ⟨o.2, car⟩ srv).traffic = s.traffic ∧
+      Ready cls macLen x' (Session.handleRecord (Pipeline.ops H P kl) m s ⟨o.2, car⟩ srv) ∧
+      max x'.c.seq x'.s.seq ≤ max x.c.seq x.s.seq + (1 + finCount ms) := by
+  obtain ⟨hcan, ⟨v, hver, hv13⟩, d, hdec, hR⟩ := hs
+  obtain ⟨h1, h2, h3, h4⟩ := step_exact P L cls macLen ver hv x d hR (.send srv 22 (encMsgs ms) f)
+    (sendOk_13 cls h13 macLen _ f) (by omega)
+  simp only [step, expected] at h1 h2 h3 h4
+  intro o x'
+  change (x.set srv o.1).c.seq ≤ _ at h3
+  change (x.set srv o.1).s.seq ≤ _ at h4
+  have hd : (Pipeline.ops H P kl).decrypt d ⟨o.2, car⟩ srv
+      = ((recvStep P d (.record srv o.2)).1, some (some (delivered cls 22 (encMsgs ms) f))) := by
+    rw [ops_decrypt, h1]; rfl
+  obtain ⟨d', e1, e2, e3⟩ := updFold_rel H P L kl cls h13 macLen ver hv srv ms (x.set srv o.1)
+    (recvStep P d (.record srv o.2)).1 h2 (by omega)
+  have heq : Session.handleRecord (Pipeline.ops H P kl) m s ⟨o.2, car⟩ srv
+      = ({ s with dec := some d' } : Session.St Dec) := by
+    unfold Session.handleRecord Session.handleRecordRaw
+    have htyp : (⟨o.2, car⟩ : Session.Rec).typ = some 23 := protect_head_13 P L cls h13 ver _ 22 _ f
+    have hve : v = .tls13 := hv13.mpr h13
+    subst hve
+    rw [htyp]
+    simp only [hcan, hdec, hver]
+    have hrs : Session.rstrip0 (delivered cls 22 (encMsgs ms) f) = encMsgs ms ++ [22] := by
+      rw [delivered_13 cls h13]; exact rstrip0_inner _ 22 f.pad13 (by decide)
+    have hloop := hs13Loop_msgs (Pipeline.ops H P kl) srv ms hms [] (encMsgs ms).length (encMsgs_length_ge ms)
+      (recvStep P d (.record srv o.2)).1
+    simp only [List.nil_append, List.length_nil] at hloop
+    simp [Session.app13, hdec, hd, hrs, Session.Out.st, hcan, hver, Session.tryExcept, hloop, e1]
+  change max x'.c.seq x'.s.seq ≤ _ at e3
+  refine ⟨by rw [heq], ?_, by omega⟩
+  rw [heq]
+  exact ⟨hcan, ⟨v, hver, hv13⟩, _, rfl, e2⟩
+
+-- ------------------------------------------------------------------ session-level histories
+/-- What an endpoint does as far as the session layer can tell: send an application-data record, or (TLS 1.3) a
+    protected handshake record made of whole handshake messages — after each Finished in it the endpoint moves to its
+    application traffic keys (RFC 8446 §4.4.4, §7.1: the sender's `.switch`). -/
+inductive SEv
+  | app (srv : Bool) (pt : Bytes) (f : Fresh)
+  | hs13 (srv : Bool) (ms : List HsMsg) (f : Fresh)
+
+def SEv.srv : SEv → Bool
+  | .app srv _ _ => srv
+  | .hs13 srv _ _ => srv
+
+/-- the first event is the record; the rest are the epoch switches it entails -/
+def SEv.evs : SEv → List Ev
+  | .app srv pt f => [.send srv 23 pt f]
+  | .hs13 srv ms f => .send srv 22 (encMsgs ms) f :: List.replicate (finCount ms) (.switch srv)
+
+def SEv.Ok (cls : CipherClass) (macLen : Nat) : SEv → Prop
+  | .app _ pt f => SendOk cls macLen pt f
+  | .hs13 _ ms _ => cls.is13 = true ∧ ∀ m ∈ ms, MsgOk m
+
+/-- what `application_traffic` has to gain for the event when `r` is the record that carried it -/
+def SEv.entries : SEv → Session.Rec → List Session.Entry
+  | .app srv pt _, r => [⟨some pt, r, srv, true⟩]
+  | .hs13 _ _ _, _ => []
+
+/-- the records of a wire image as `Session` gets them: the `k`-th record is carried by the packets `cars[k]` -/
+def wireRecs : List Wire → List (List Nat) → List (Session.Rec × Bool)
+  | [], _ => []
+  | .switch _ :: ws, cs => wireRecs ws cs
+  | .record srv raw :: ws, c :: cs => (⟨raw, c⟩, srv) :: wireRecs ws cs
+  | .record _ _ :: _, [] => []
+
+theorem run_switches (P : Prims) (L : SealLaws P) (cls : CipherClass) (ver : Bytes) (x : Snd) (srv : Bool) (n : Nat) :
+    run P L cls ver x (List.replicate n (.switch srv)) = List.replicate n (.switch srv) := by
+  induction n generalizing x with
+  | zero => rfl
+  | succ n ih => simp only [List.replicate_succ, run, step, ih]
+
+theorem wireRecs_switches (srv : Bool) (n : Nat) (ws : List Wire) (cs : List (List Nat)) :
+    wireRecs (List.replicate n (.switch srv) ++ ws) cs = wireRecs ws cs := by
+  induction n with
+  | zero => rfl
+  | succ n ih => simp only [List.replicate_succ, List.cons_append, wireRecs, ih]
+
+/-- the one record an event puts on the wire -/
+def SEv.raw (P : Prims) (L : SealLaws P) (cls : CipherClass) (ver : Bytes) (x : Snd) : SEv → Bytes
+  | .app srv pt f => (protect P L cls ver (x.get srv) 23 pt f).2
+  | .hs13 srv ms f => (protect P L cls ver (x.get srv) 22 (encMsgs ms) f).2
+
+theorem wireRecs_evs (P : Prims) (L : SealLaws P) (cls : CipherClass) (ver : Bytes) (x : Snd) (e : SEv)
+    (ws : List Wire) (c : List Nat) (cs : List (List Nat)) :
+    wireRecs (run P L cls ver x e.evs ++ ws) (c :: cs) = (⟨e.raw P L cls ver x, c⟩, e.srv) :: wireRecs ws cs := by
+  cases e with
+  | app srv pt f => rfl
+  | hs13 srv ms f =>
+    simp only [SEv.evs, run, step, run_switches, List.cons_append, wireRecs, wireRecs_switches]
+    rfl
+
+/-- one event through `handle_tls_record` -/
+theorem handleRecord_sev (H : Crypto.Prims) (P : Prims) (L : SealLaws P) (kl : List Keylog.Key) (cls : CipherClass)
+    (macLen : Nat) (ver : Bytes) (hv : ver.length = 2) (x : Snd) (s : Session.St Dec) (hs : Ready cls macLen x s)
+    (e : SEv) (he : e.Ok cls macLen) (hq : max x.c.seq x.s.seq + e.evs.length ≤ seqLimit) (m : Bool) (car : List Nat) :
+    let r : Session.Rec := ⟨e.raw P L cls ver x, car⟩
+    let x' := after P L cls ver x e.evs
+    (Session.handleRecord (Pipeline.ops H P kl) m s r e.srv).traffic = s.traffic ++ e.entries r ∧
+      Ready cls macLen x' (Session.handleRecord (Pipeline.ops H P kl) m s r e.srv) ∧
+      max x'.c.seq x'.s.seq ≤ max x.c.seq x.s.seq + e.evs.length := by
+  cases e with
+  | app srv pt f =>
+    obtain ⟨h1, h2, h3, h4⟩ := handleRecord_app H P L kl cls macLen ver hv x s hs srv pt f he
+      (by simp only [SEv.evs, List.length_singleton] at hq; omega) m car
+    exact ⟨h1, h2, by simp only [SEv.evs, List.length_singleton]; exact Nat.max_le.mpr ⟨h3, h4⟩⟩
+  | hs13 srv ms f =>
+    simp only [SEv.evs, List.length_cons, List.length_replicate] at hq
+    obtain ⟨h1, h2, h3⟩ := handleRecord_hs13 H P L kl cls he.1 macLen ver hv x s hs srv ms f he.2 (by omega) m car
+    refine ⟨by simp only [SEv.entries, List.append_nil]; exact h1, h2, ?_⟩
+    simp only [SEv.evs, List.length_cons, List.length_replicate]
+    have : after P L cls ver x (Ev.send srv 22 (encMsgs ms) f :: List.replicate (finCount ms) (Ev.switch srv))
+        = after P L cls ver (x.set srv (protect P L cls ver (x.get srv) 22 (encMsgs ms) f).1)
+            (List.replicate (finCount ms) (.switch srv)) := rfl
+    rw [this]
+    omega
+
 end TLX.Lemmas.Pipeline
